@@ -35,9 +35,14 @@ def _ops(v, js=(1, 2, 3), faults=(), extra=()):
     ops.append(ninja_op(j=js[-1], env={"NINJA_STATUS": "%s/%f/%t/%r/%u|"}, label="ninja -j%d NINJA_STATUS=%%s/%%f/%%t/%%r/%%u|" % js[-1]))
     ops.append(ninja_op(j=js[-1], flags=["-v"], label="ninja -j%d -v" % js[-1]))
     ops.append(ninja_op(j=js[-1], flags=["--status", "$started/$finished/$total $description"], label="ninja --status"))
+    # stdout is a terminal, 50 columns wide: status lines are elided and overwrite each other, colours pass through
+    tty = {"TERM": "xterm", "VERIF_TTY_COLS": "50"}
+    ops.append(ninja_op(j=js[-1], env=tty, label="ninja -j%d [on a terminal]" % js[-1]))
+    ops.append(ninja_op(j=1, env=tty, flags=["-v"], label="ninja -j1 -v [on a terminal]"))
     for f in faults:
         ops.append(ninja_op(j=js[-1], k=0, faults=f))
         ops.append(ninja_op(j=js[-1], k=1, faults=f))
+        ops.append(ninja_op(j=js[-1], k=0, faults=f, env=tty, label="ninja -j%d -k0 faults=%s [on a terminal]" % (js[-1], "+".join(sorted(f)))))
     return ops, nb
 
 
